@@ -36,6 +36,8 @@ pub struct Cfg {
     pub via_router: bool,
     /// an unrelated API call (get_state) this many ms after the search started
     pub poke_ms: Option<u64>,
+    /// the chain nodes' addresses are configured as routers, so the routing table never admits them
+    pub chain_unadmitted: bool,
     pub rng_seed: u64,
 }
 
@@ -105,7 +107,8 @@ pub fn build(cfg: &Cfg, base_sends: Option<usize>) -> (Scenario, Vec<Box<dyn Pee
         // peer 0 is the router (never admitted); the others are learned from its answers
         sc.nodes.push(NodeSpec { addr: s_addr(), id: Some(InfoHash::from(s_id())), read_only: true, announce_port: None, contacts: vec![], routers: vec![p_addr(0).to_string()], start_ms: 0 });
     } else {
-        sc.nodes.push(NodeSpec { addr: s_addr(), id: Some(InfoHash::from(s_id())), read_only: true, announce_port: None, contacts: (0..n).map(p_addr).collect(), routers: vec![], start_ms: 0 });
+        let routers: Vec<String> = if cfg.chain_unadmitted { (0..cfg.chain).map(|k| p_addr(100 + k).to_string()).collect() } else { vec![] };
+        sc.nodes.push(NodeSpec { addr: s_addr(), id: Some(InfoHash::from(s_id())), read_only: true, announce_port: None, contacts: (0..n).map(p_addr).collect(), routers, start_ms: 0 });
     }
     if let Some(p) = cfg.poke_ms {
         sc.actions.push((When::At(T_SEARCH + p), Action::GetState { node: 0, tag: "poke".into() }));
@@ -248,7 +251,7 @@ fn beh_p(s: &str) -> Beh {
     }
 }
 fn cfg_json(c: &Cfg) -> Value {
-    json!({"peers": c.peers.iter().map(beh_s).collect::<Vec<_>>(), "chain": c.chain, "chain_end": beh_s(&c.chain_end), "announce": c.announce, "send_fail": c.send_fail, "send_answer": c.send_answer, "via_router": c.via_router, "poke_ms": c.poke_ms, "rng_seed": c.rng_seed})
+    json!({"peers": c.peers.iter().map(beh_s).collect::<Vec<_>>(), "chain": c.chain, "chain_end": beh_s(&c.chain_end), "announce": c.announce, "send_fail": c.send_fail, "send_answer": c.send_answer, "via_router": c.via_router, "poke_ms": c.poke_ms, "chain_unadmitted": c.chain_unadmitted, "rng_seed": c.rng_seed})
 }
 fn cfg_parse(v: &Value) -> Cfg {
     Cfg {
@@ -260,6 +263,7 @@ fn cfg_parse(v: &Value) -> Cfg {
         send_answer: v["send_answer"].as_u64().unwrap_or(0) as u8,
         via_router: v["via_router"].as_bool().unwrap_or(false),
         poke_ms: v["poke_ms"].as_u64(),
+        chain_unadmitted: v["chain_unadmitted"].as_bool().unwrap_or(false),
         rng_seed: v["rng_seed"].as_u64().unwrap_or(1),
     }
 }
@@ -322,7 +326,7 @@ pub fn configs(tier: Tier, seed: u64) -> Vec<Cfg> {
                 }
             }
             for announce in [false, true] {
-                out.push(Cfg { peers: peers.clone(), chain: 0, chain_end: Beh::Answers, announce, send_fail: None, send_answer: 0, via_router: false, poke_ms: None, rng_seed: seed });
+                out.push(Cfg { peers: peers.clone(), chain: 0, chain_end: Beh::Answers, announce, send_fail: None, send_answer: 0, via_router: false, poke_ms: None, chain_unadmitted: false, rng_seed: seed });
             }
         }
     }
@@ -332,7 +336,7 @@ pub fn configs(tier: Tier, seed: u64) -> Vec<Cfg> {
             let mut peers = vec![Beh::Answers; n];
             peers[n - 1] = last.clone();
             for announce in [false, true] {
-                out.push(Cfg { peers: peers.clone(), chain: 0, chain_end: Beh::Answers, announce, send_fail: None, send_answer: 0, via_router: false, poke_ms: None, rng_seed: seed });
+                out.push(Cfg { peers: peers.clone(), chain: 0, chain_end: Beh::Answers, announce, send_fail: None, send_answer: 0, via_router: false, poke_ms: None, chain_unadmitted: false, rng_seed: seed });
             }
         }
     }
@@ -340,16 +344,24 @@ pub fn configs(tier: Tier, seed: u64) -> Vec<Cfg> {
     for via_router in [false, true] {
         for poke in [10u64, 700, 1_499, 1_500, 1_501, 2_000, 2_990] {
             for peers in [vec![Beh::Silent; 3], vec![Beh::Answers, Beh::Silent, Beh::Answers], vec![Beh::Answers; 2]] {
-                out.push(Cfg { peers, chain: 0, chain_end: Beh::Answers, announce: true, send_fail: None, send_answer: 0, via_router, poke_ms: Some(poke), rng_seed: seed });
+                out.push(Cfg { peers, chain: 0, chain_end: Beh::Answers, announce: true, send_fail: None, send_answer: 0, via_router, poke_ms: Some(poke), chain_unadmitted: false, rng_seed: seed });
             }
         }
-        out.push(Cfg { peers: vec![Beh::Answers; 3], chain: 2, chain_end: Beh::Silent, announce: false, send_fail: None, send_answer: 0, via_router, poke_ms: None, rng_seed: seed });
+        out.push(Cfg { peers: vec![Beh::Answers; 3], chain: 2, chain_end: Beh::Silent, announce: false, send_fail: None, send_answer: 0, via_router, poke_ms: None, chain_unadmitted: false, rng_seed: seed });
+    }
+    // chains whose nodes the routing table refuses (router addresses): queried by the search all the same
+    for chain in 1..=3usize {
+        for n in [2usize, 3, 4] {
+            let mut peers = vec![Beh::Answers; n];
+            peers[n - 1] = Beh::Silent;
+            out.push(Cfg { peers, chain, chain_end: Beh::Answers, announce: true, send_fail: None, send_answer: 0, via_router: false, poke_ms: None, chain_unadmitted: true, rng_seed: seed });
+        }
     }
     // chains of ever closer nodes
     for chain in 1..=6usize {
         for end in behs.iter() {
             for n in [1usize, 2] {
-                out.push(Cfg { peers: vec![Beh::Answers; n], chain, chain_end: end.clone(), announce: chain % 2 == 0, send_fail: None, send_answer: 0, via_router: false, poke_ms: None, rng_seed: seed });
+                out.push(Cfg { peers: vec![Beh::Answers; n], chain, chain_end: end.clone(), announce: chain % 2 == 0, send_fail: None, send_answer: 0, via_router: false, poke_ms: None, chain_unadmitted: false, rng_seed: seed });
             }
         }
     }
@@ -382,9 +394,9 @@ pub fn run(tier: Tier) -> Report {
     // send failures: the k-th send after the search started fails, for every k
     let mut sf: Vec<Cfg> = vec![];
     for base in [
-        Cfg { peers: vec![Beh::Answers; 3], chain: 0, chain_end: Beh::Answers, announce: true, send_fail: None, send_answer: 0, via_router: false, poke_ms: None, rng_seed: seed },
-        Cfg { peers: vec![Beh::Answers, Beh::Silent], chain: 3, chain_end: Beh::Answers, announce: true, send_fail: None, send_answer: 0, via_router: false, poke_ms: None, rng_seed: seed },
-        Cfg { peers: vec![Beh::Silent; 2], chain: 0, chain_end: Beh::Answers, announce: false, send_fail: None, send_answer: 0, via_router: false, poke_ms: None, rng_seed: seed },
+        Cfg { peers: vec![Beh::Answers; 3], chain: 0, chain_end: Beh::Answers, announce: true, send_fail: None, send_answer: 0, via_router: false, poke_ms: None, chain_unadmitted: false, rng_seed: seed },
+        Cfg { peers: vec![Beh::Answers, Beh::Silent], chain: 3, chain_end: Beh::Answers, announce: true, send_fail: None, send_answer: 0, via_router: false, poke_ms: None, chain_unadmitted: false, rng_seed: seed },
+        Cfg { peers: vec![Beh::Silent; 2], chain: 0, chain_end: Beh::Answers, announce: false, send_fail: None, send_answer: 0, via_router: false, poke_ms: None, chain_unadmitted: false, rng_seed: seed },
     ] {
         for k in 0..tier.pick(10, 16) {
             for ans in [0u8, 1] {
@@ -411,10 +423,10 @@ pub fn run(tier: Tier) -> Report {
     // deviations
     let fs = fates();
     let picks: Vec<Cfg> = vec![
-        Cfg { peers: vec![Beh::Answers, Beh::Answers], chain: 0, chain_end: Beh::Answers, announce: false, send_fail: None, send_answer: 0, via_router: false, poke_ms: None, rng_seed: seed },
-        Cfg { peers: vec![Beh::Answers, Beh::Silent, Beh::ErrorReply], chain: 0, chain_end: Beh::Answers, announce: true, send_fail: None, send_answer: 0, via_router: false, poke_ms: None, rng_seed: seed },
-        Cfg { peers: vec![Beh::Answers], chain: 2, chain_end: Beh::Answers, announce: false, send_fail: None, send_answer: 0, via_router: false, poke_ms: None, rng_seed: seed },
-        Cfg { peers: vec![Beh::Answers, Beh::Answers], chain: 4, chain_end: Beh::Silent, announce: true, send_fail: None, send_answer: 0, via_router: false, poke_ms: None, rng_seed: seed },
+        Cfg { peers: vec![Beh::Answers, Beh::Answers], chain: 0, chain_end: Beh::Answers, announce: false, send_fail: None, send_answer: 0, via_router: false, poke_ms: None, chain_unadmitted: false, rng_seed: seed },
+        Cfg { peers: vec![Beh::Answers, Beh::Silent, Beh::ErrorReply], chain: 0, chain_end: Beh::Answers, announce: true, send_fail: None, send_answer: 0, via_router: false, poke_ms: None, chain_unadmitted: false, rng_seed: seed },
+        Cfg { peers: vec![Beh::Answers], chain: 2, chain_end: Beh::Answers, announce: false, send_fail: None, send_answer: 0, via_router: false, poke_ms: None, chain_unadmitted: false, rng_seed: seed },
+        Cfg { peers: vec![Beh::Answers, Beh::Answers], chain: 4, chain_end: Beh::Silent, announce: true, send_fail: None, send_answer: 0, via_router: false, poke_ms: None, chain_unadmitted: false, rng_seed: seed },
     ];
     let mut levels = vec![];
     for (i, cfg) in picks.iter().enumerate() {
